@@ -124,7 +124,7 @@ func simEnv(b *Built, racelog string, procs int) []string {
 	for _, kv := range os.Environ() {
 		k := kv[:strings.IndexByte(kv+"=", '=')]
 		switch k {
-		case "GOMAXPROCS", "GORACE", "GODEBUG", "GOTRACEBACK":
+		case "GOMAXPROCS", "GORACE", "GODEBUG", "GOTRACEBACK", "TZ", "VSIM_PROCS":
 			continue
 		}
 		env = append(env, kv)
@@ -226,6 +226,19 @@ func (sp *simProc) simBatch(in, out string, keep, par bool, reps int) (*BatchRes
 		limit = 90 * time.Second
 	}
 	env := simEnv(sp.b, racelog, procs)
+	if !par {
+		// the process environment is a fault dimension too: the simulator process
+		// runs in a time zone far from the reference process's (a function of the
+		// batch number, so that minimisation and replay see the same one)
+		var hdr struct {
+			Batch int `json:"batch"`
+		}
+		if data, err := os.ReadFile(in); err == nil {
+			json.Unmarshal(data, &hdr)
+		}
+		zones := []string{"Pacific/Kiritimati", "America/Los_Angeles", "Asia/Kathmandu", "UTC", "Pacific/Pago_Pago", "Europe/Berlin"}
+		env = append(env, "TZ="+zones[((hdr.Batch%len(zones))+len(zones))%len(zones)])
+	}
 	if !par && sp.b.Instr != nil && sp.b.Instr.Seams["nproc"] > 0 {
 		// what the library is told about the processor count varies from batch
 		// file to batch file (the simulator itself always runs on one)
